@@ -75,7 +75,8 @@ impl From {
 }
 impl Case {
     fn constraint(&self) -> String {
-        let size = "SIZE (1..8)";
+        // the size operand varies: closed range, extensible range, single value, extensible single value
+        let size = ["SIZE (1..8)", "SIZE (1..4, ...)", "SIZE (4)", "SIZE (4, ...)"][self.froms[0].asn().len() % 4];
         match self.size {
             SizeForm::None => self.froms.iter().map(|f| format!("({})", f.asn())).collect::<Vec<_>>().join(""),
             SizeForm::SerialBefore => format!("({size}){}", self.froms.iter().map(|f| format!("({})", f.asn())).collect::<Vec<_>>().join("")),
@@ -108,6 +109,9 @@ fn pool(ty: &str) -> Vec<char> {
         "NumericString" => " 0123456789".chars().collect(),
         "PrintableString" => "ABCXYZabcxyz019 '()+,-./:=?".chars().collect(),
         "GeneralizedTime" => "0123456789".chars().collect(),
+        // the 16-bit / 32-bit alphabets also around the surrogate gap, where code point and table position part
+        "BMPString" => "ABCXYZabcxyz019 !#~\u{D7FF}\u{E000}\u{E01F}\u{F7FE}\u{F7FF}\u{FFFD}".chars().collect(),
+        "UniversalString" => "ABCXYZabcxyz019 !#~\u{D7FF}\u{E000}\u{E01F}\u{F7FE}\u{F7FF}\u{FFFD}\u{10000}\u{10FFFF}".chars().collect(),
         _ => "ABCXYZabcxyz019 !#~".chars().collect(),
     }
 }
